@@ -15,7 +15,7 @@ type cfile struct {
 	// the edit in concrete terms: bytes [cutAt, cutAt+cutLen) removed, insLen bytes inserted at cutAt,
 	// file cut at truncAt (-1: none). Flips and overwrites leave all offsets in place.
 	cutAt, cutLen, insLen int
-	truncAt              int
+	truncAt               int
 }
 
 func clone(b []byte) []byte { return append([]byte(nil), b...) }
